@@ -1,8 +1,84 @@
 import RisorModel.Util
-/-! Line-protocol front end of the C20 model (stub until the model exists). -/
+import RisorModel.C20.Model
+/-! Line-protocol front end of the C20 model (requests after the leading `C20` field).
+
+  lex  <src-utf8-hex>                      → ok TAB tok;tok;…   tok = kindhex,lithex,sChar,sLine,sCol,sLS,eChar,eLine,eCol,eLS
+                                             (an error ends the stream: E,cls[,kindhex,lithex,positions…])
+  diag <src-utf8-hex> <start> <end> <eof>  → quotedhex TAB line TAB col TAB endCol TAB renderOk TAB diagOk TAB singleLine
+  kl   <src-utf8-hex>                      → kinds and literals only (layout comparisons)
+-/
 namespace Risor.C20
+open Risor.Util
+
+/-- strict UTF-8 decoding of a byte list into code points -/
+def decodeUtf8 : Nat → List Nat → Option Chars
+  | 0, _ => some []
+  | _, [] => some []
+  | f + 1, b :: bs =>
+    if b < 0x80 then (decodeUtf8 f bs).map (b :: ·)
+    else if 0xC0 ≤ b && b < 0xE0 then
+      match bs with
+      | b1 :: r => (decodeUtf8 f r).map (((b - 0xC0) * 64 + (b1 - 0x80)) :: ·)
+      | _ => none
+    else if 0xE0 ≤ b && b < 0xF0 then
+      match bs with
+      | b1 :: b2 :: r => (decodeUtf8 f r).map (((b - 0xE0) * 4096 + (b1 - 0x80) * 64 + (b2 - 0x80)) :: ·)
+      | _ => none
+    else if 0xF0 ≤ b && b < 0xF8 then
+      match bs with
+      | b1 :: b2 :: b3 :: r =>
+        (decodeUtf8 f r).map (((b - 0xF0) * 262144 + (b1 - 0x80) * 4096 + (b2 - 0x80) * 64 + (b3 - 0x80)) :: ·)
+      | _ => none
+    else none
+
+def srcOf (h : String) : Option Chars :=
+  match fromHex h with
+  | some bs => decodeUtf8 (bs.length + 1) bs
+  | none => none
+
+def showPos (p : Pos) : String :=
+  toString p.char ++ "," ++ toString p.line ++ "," ++ toString p.col ++ "," ++ toString p.lineStart
+
+def kindHex (k : String) : String := toHexField (strBytes k)
+
+def showTok (src : Chars) (t : PTok) : String :=
+  match t.out with
+  | .tok k l => kindHex k ++ "," ++ toHexField l ++ "," ++ showPos (posAt src t.start) ++ "," ++ showPos (posAt src t.stop)
+  | .errT k l c => "E," ++ c ++ "," ++ kindHex k ++ "," ++ toHexField l ++ "," ++ showPos (posAt src t.start) ++ "," ++ showPos (posAt src t.stop)
+  | .err c => "E," ++ c
+
+def showKL : Out → String
+  | .tok k l => kindHex k ++ "," ++ toHexField l
+  | .errT k l c => "E," ++ c ++ "," ++ kindHex k ++ "," ++ toHexField l
+  | .err c => "E," ++ c
+
+def unsupported (ts : List PTok) : Bool :=
+  ts.any fun t => match t.out with
+    | .err "unsupported" => true
+    | _ => false
 
 def handle : List String → String
-  | _ => "error\tnot-implemented"
+  | ["lex", h] =>
+    match srcOf h with
+    | some src =>
+      let ts := lexAll src
+      if unsupported ts then "unsupported"
+      else "ok\t" ++ ";".intercalate (ts.map (showTok src))
+    | none => "error\tbad-hex"
+  | ["kl", h] =>
+    match srcOf h with
+    | some src => "ok\t" ++ ";".intercalate ((lexKL (src.length + 2) src "").map showKL)
+    | none => "error\tbad-hex"
+  | ["diag", h, s, e, eof] =>
+    match srcOf h, s.toNat?, e.toNat? with
+    | some src, some s, some e =>
+      let q := getLineText src s (eof == "1")
+      let ps := posAt src s
+      let pe := posAt src e
+      toHexField (utf8s q) ++ "\t" ++ toString ps.line ++ "\t" ++ toString ps.col ++ "\t" ++ toString pe.col
+        ++ "\t" ++ toString (renderOk ps.col pe.col) ++ "\t" ++ toString (diagOk src ps.line ps.col q)
+        ++ "\t" ++ toString (singleLineSpan src s e)
+    | _, _, _ => "error\tbad-request"
+  | _ => "error\tunknown-request"
 
 end Risor.C20
